@@ -24,14 +24,14 @@ def stale_task(ctx, checks):
                         rule='stale: label-valued immediates of compressible instructions next to aligns (decision-time value differs from the final one)')
 
 
-def encoder_text_task(ctx, which, checks, spellings=('x',)):
+def encoder_text_task(ctx, which, checks, spellings=('x',), only=None):
     """text front end -> encoder: legal corner tuples must assemble and decode; illegal ones must be refused with
     the assembler's own error and produce no output"""
     from bounded import gen, oracle
     from contracts.encoders import Harness, all_mnemonics
     from pyvc.real import real
     h = Harness(ctx)
-    ms = [m for m in all_mnemonics(h) if (which == 'all' or (which == 'c') == m.startswith('c.'))]
+    ms = [m for m in all_mnemonics(h) if (which == 'all' or (which == 'c') == m.startswith('c.')) and (only is None or m == only)]
     ctx.b_rule('enc: per mnemonic every operand at each end of its legal interval, one step inside and outside, a mis-scaled value, '
                'far outside (2**33), every register class edge; legal tuples through assemble() and decoded by the spec; '
                'illegal tuples must be refused with AssemblerError; spellings %s' % (spellings,))
